@@ -122,7 +122,7 @@ fn main() {
             // itself must not take the run down: a panic that escapes it is recorded as a failed check of the class
             // "falsifier/escaped-panic" with the panic message (the library panicked where the falsifier expected a value)
             let fals = std::panic::catch_unwind(std::panic::AssertUnwindSafe(|| match prop {
-                "C14" => fals::Fals::new(),
+                "C14" => gen_tensor::fals_c14(&mut frng, thorough),
                 "C15" => fals::Fals::new(),
                 "C18" => gen_basic::fals_c18(&mut frng, thorough, release),
                 "C07" => gen_basic::fals_c07(&mut frng, thorough),
